@@ -9,6 +9,37 @@ Proof.
 Qed.
 
 (* ------------------------------------------------------------- writeValue *)
+(* below a plain value the traversal only descends to older objects *)
+Lemma plain_write_ok h g : wf_heap h = true ->
+  forall fuel x, plain fuel h x = true ->
+  forall fuel' path, x < fuel' -> write_value g fuel' h path x = Done tt.
+Proof.
+  intros Hwf. induction fuel as [|f IH]; intros x Hp fuel' path Hx; [discriminate|].
+  destruct fuel' as [|f']; [lia|].
+  cbn [plain] in Hp. cbn [write_value].
+  destruct (lookup h x) as [o|] eqn:Ho; [|discriminate].
+  pose proof (wf_lookup h x o Hwf Ho) as Hw.
+  destruct o as [| z | es | items | zs | es | fs | ds cs | recv]; cbn [obj_wf] in Hw; try reflexivity; try discriminate.
+  - apply all_res_ok with (P := fun c => c < x /\ plain f h c = true).
+    + intros c [Hc Hpc]. apply (IH c Hpc). lia.
+    + apply Forall_forall. intros c Hin. split.
+      * pose proof (all_lt_Forall _ _ Hw) as Hall. rewrite Forall_forall in Hall. apply Hall. exact Hin.
+      * rewrite forallb_forall in Hp. apply Hp. exact Hin.
+  - apply all_res_ok with (P := fun c => c < x /\ plain f h c = true).
+    + intros c [Hc Hpc]. apply (IH c Hpc). lia.
+    + apply Forall_forall. intros c Hin. split.
+      * pose proof (all_lt_Forall _ _ Hw) as Hall. rewrite Forall_forall in Hall. apply Hall. exact Hin.
+      * rewrite forallb_forall in Hp. apply Hp. exact Hin.
+Qed.
+
+Lemma structs_plain_lookup h x fs :
+  structs_plain h = true -> lookup h x = Some (OStruct fs) -> plain (S x) h x = true.
+Proof.
+  unfold structs_plain. intros Hs Hl. rewrite forallb_forall in Hs.
+  specialize (Hs x). rewrite Hl in Hs. apply Hs. apply in_seq.
+  pose proof (lookup_some_lt h x _ Hl). lia.
+Qed.
+
 Section Write.
 Variable h : heap.
 Variable g : guards.
@@ -16,7 +47,7 @@ Hypothesis Hwf : wf_heap h = true.
 Hypothesis Hgl : g_wv_list g = true.
 Hypothesis Hgd : g_wv_dict g = true.
 (* either Struct.String hands the path on (it does not in the code), or no struct exists *)
-Hypothesis Hstruct : g_struct_path g = true \/ struct_free h = true.
+Hypothesis Hstruct : g_struct_path g = true \/ struct_free h = true \/ structs_plain h = true.
 Let N := size h.
 
 Lemma struct_free_lookup x fs : struct_free h = true -> lookup h x = Some (OStruct fs) -> False.
@@ -54,12 +85,15 @@ Proof.
     intros c Hc. apply IH; [lia|].
     apply bound_child_down with (Ufz := unvisited N path) (x := x); auto.
   - (* struct *)
-    destruct Hstruct as [Hp | Hfree].
+    destruct Hstruct as [Hp | [Hfree | Hplain]].
     + rewrite Hp.
       apply all_res_ok with (P := fun c => c < x); [| apply all_lt_Forall; exact Hw].
       intros c Hc. apply IH; [lia|].
       apply bound_child_down with (Ufz := unvisited N path) (x := x); auto.
     + exfalso. eapply struct_free_lookup; eauto.
+    + pose proof (structs_plain_lookup h x fs Hplain Ho) as Hpl.
+      pose proof (plain_write_ok h g Hwf (S x) x Hpl (S f) path) as Hdone.
+      cbn [write_value] in Hdone. rewrite Ho in Hdone. apply Hdone. lia.
 Qed.
 
 Lemma write_total_lemma :
